@@ -51,9 +51,18 @@ class Module:
                         a.name if a.asname else a.name.split(".")[0], "")
 
 
+SPECS = Path(__file__).resolve().parent.parent / "specs"
+
+
 def module(name: str) -> Module:
     if name not in _mod_cache:
-        _mod_cache[name] = Module(name, PKG / (name + ".py"))
+        if name.startswith("spec."):
+            # lemma drivers / spec functions live in /verif/specs; they only *call* the real functions,
+            # which are then executed from /repo's source
+            _mod_cache[name] = Module(name, SPECS / (name[5:] + ".py"))
+            _mod_cache[name].is_spec = True
+        else:
+            _mod_cache[name] = Module(name, PKG / (name + ".py"))
     return _mod_cache[name]
 
 
